@@ -24,7 +24,8 @@ EXPLANATION = (
     ' the decimal result (known finding F30 for TRUNC, FLOOR, CEILING); (C16.4) ATAN2(x, y) hands y to the first parameter '
     'of arctan2; (C16.5) the rounding mode is set only inside decimal.localcontext(); (C16.6) ROUND/ROUNDUP/ROUNDDOWN/INT '
     'for large magnitudes and many digits (no Python-level exception) and POWER with negative bases and whole-valued '
-    'exponents however stored.')
+    'exponents however stored.'
+    ' (C16.7) 26 exact and 50 reference rows (4 ulp) at large magnitudes, thousands of turns and underflowing arguments, one construct per row; sequences of rounding calls in one process, also after calls that fail.')
 NOT_DECIDED = 'agreement with IEEE/decimal reference values (numeric)'
 TRUSTED = ['argument conventions of numpy.arctan2 and of the decimal rounding modes']
 
